@@ -8,7 +8,18 @@ use std::sync::{Arc, Mutex};
 /// The lock crate's source text with `std::sync::Mutex` resolved to shuttle's Mutex.
 #[allow(dead_code, missing_docs)]
 mod shuttled {
-    mod std { pub mod sync { pub use shuttle::sync::Mutex; } }
+    // everything of std, with the synchronisation primitives, atomics, yield and spin hints replaced by shuttle's
+    // so that whatever the lock is built from is explored under shuttle's schedulers
+    mod std {
+        pub use ::std::*;
+        pub mod sync {
+            pub use ::std::sync::*;
+            pub use shuttle::sync::{Condvar, Mutex, MutexGuard, RwLock, RwLockReadGuard, RwLockWriteGuard};
+            pub mod atomic { pub use shuttle::sync::atomic::*; }
+        }
+        pub mod thread { pub use ::std::thread::*; pub use shuttle::thread::{sleep, spawn, yield_now}; }
+        pub mod hint { pub use ::std::hint::*; pub use shuttle::hint::spin_loop; }
+    }
     include!(concat!(env!("OUT_DIR"), "/lock_src.rs"));
 }
 
@@ -115,11 +126,21 @@ pub fn run(a: &Args) {
         let sink: Arc<Mutex<Vec<(Vec<Rec>, u64)>>> = Arc::new(Mutex::new(vec![]));
         let s2 = sink.clone();
         let body = move || shuttle_body(threads, calls, 7, s2.clone());
-        let r = std::panic::catch_unwind(std::panic::AssertUnwindSafe(|| match name {
-            "random" => shuttle::check_random(body, iters),
-            "pct" => shuttle::check_pct(body, iters, 3),
-            _ => shuttle::check_dfs(body, Some(iters)),
-        }));
+        // a lock that spins without a shuttle-visible yield would hang the exploration: bound it by a timeout
+        let (tx, rx) = std::sync::mpsc::channel();
+        let nm = name.to_string();
+        std::thread::spawn(move || {
+            let r = std::panic::catch_unwind(std::panic::AssertUnwindSafe(|| match nm.as_str() {
+                "random" => shuttle::check_random(body, iters),
+                "pct" => shuttle::check_pct(body, iters, 3),
+                _ => shuttle::check_dfs(body, Some(iters)),
+            }));
+            let _ = tx.send(r.is_err());
+        });
+        let r: Result<(), ()> = match rx.recv_timeout(std::time::Duration::from_secs(if a.thorough { 600 } else { 60 })) {
+            Ok(false) => Ok(()),
+            _ => Err(()),
+        };
         let hs = sink.lock().unwrap().clone();
         explored += hs.len();
         let failing: Vec<&(Vec<Rec>, u64)> = hs.iter().filter(|(h, fin)| !serial_ok(h, 7, *fin, threads * calls)).collect();
@@ -142,4 +163,5 @@ pub fn run(a: &Args) {
     out.stats.insert("shuttle_schedules_explored".into(), json!(explored));
     out.stats.insert("shuttle_schedules_not_serial".into(), json!(bad));
     out.write(&a.out, a.shards, "lock");
+    std::process::exit(0);      // an exploration thread that hung must not keep the process alive
 }
